@@ -664,16 +664,22 @@ def rule_mgf_guard(repo: Repo) -> List[Ob]:
     if tests:
         targ = src(tests[0].args[0]) if tests[0].args else ""
         used = set()
+        # the formal symbol the mgf is differentiated in (whatever it is called): a local bound to Symbol("...") / symbols("...")
+        formal = {nm for nm, vals in defs.defs.items() if any(isinstance(v, ast.Call) and call_name(v) in ("Symbol", "SSymbol", "symbols", "Dummy") for v in vals)}
         for u in uses:
-            if u.args and not (isinstance(u.args[0], ast.Name) and u.args[0].id == "t"):
+            if u.args and not (isinstance(u.args[0], ast.Name) and u.args[0].id in formal):
                 used.add(src(u.args[0]))
         for x in walk_no_nested(f.node):
             if isinstance(x, ast.Call) and call_name(x) == "xreplace" and x.args and isinstance(x.args[0], ast.Dict):
                 used |= {src(v) for v in x.args[0].values}
         ok = used == {targ}
-        obs.append(Ob("E-mgf", f"{rp}::{f.qualname}::order", rp, tests[0].lineno, f.qualname, ok,
-                      f"existence is tested at the order `{targ}` at which the mgf (or its derivative) is evaluated" if ok else
-                      f"existence is tested at `{targ}` but the mgf is evaluated at {sorted(used)}"))
+        if not ok and not used:
+            obs.append(inconclusive("E-mgf", f"{rp}::{f.qualname}::order", rp, tests[0].lineno, f.qualname, "point at which the mgf is evaluated not recognised"))
+            ok = None
+        if ok is not None:
+          obs.append(Ob("E-mgf", f"{rp}::{f.qualname}::order", rp, tests[0].lineno, f.qualname, ok,
+                        f"existence is tested at the order `{targ}` at which the mgf (or its derivative) is evaluated" if ok else
+                        f"existence is tested at `{targ}` but the mgf is evaluated at {sorted(used)}"))
     # rounding funnel
     for qn in ("FunctionalAssignment.get_trig_moment", "FunctionalAssignment.get_exp_moment", "FunctionalAssignment.get_const_moment"):
         g = repo.function(rp, qn)
